@@ -69,6 +69,10 @@ class Result:
         m = re.search(r"(\d+) states generated, (\d+) distinct states found", out)
         self.generated = int(m.group(1)) if m else 0
         self.distinct = int(m.group(2)) if m else 0
+        if not m:
+            m2 = re.search(r"The number of states generated: (\d+)", out)
+            if m2:
+                self.generated = self.distinct = int(m2.group(1))
         self.errors = [ln for ln in out.splitlines() if ln.startswith("Error:")]
         self.completed = "Model checking completed. No error has been found." in out \
             or "Finished in" in out and not self.errors
